@@ -146,6 +146,7 @@ def lower_unit(spec, prop, known_uncontracted=None, known_functions=None):
     spec_text = open(os.path.join(VERIF, spec.spec_header)).read() if spec.spec_header else ""
     harness_text = open(os.path.join(VERIF, spec.harness_file)).read() if spec.harness_file else ""
     b.auto_lowered = []
+    b.contracts_unused = []
     b.new_unconstrained = []
     b.functions_defined = sorted(set(sg for t in tus.values() for sg in t.funcs))
     if known_uncontracted is not None:
@@ -253,10 +254,10 @@ def lower_unit(spec, prop, known_uncontracted=None, known_functions=None):
             if m not in macros:
                 raise Undecided("must-fire: spec %s gives a loop contract %s but no such loop was lowered "
                                 "(loop removed or function renamed)" % (spec.spec_header, m))
-        for m in re.findall(r"#define\s+(__FC_[A-Za-z0-9_]+)", sh):
-            if m not in macros:
-                raise Undecided("must-fire: spec %s gives a contract %s but no such function was lowered or called "
-                                "(function renamed or removed)" % (spec.spec_header, m))
+        # a contract whose function is no longer lowered or called is not an error: a lowered function that disappears makes the
+        # extraction fail by name, and a callee that is renamed shows up as a new callee without contract (handled above); the
+        # unused contracts are reported in the evidence
+        b.contracts_unused = [m[5:] for m in re.findall(r"#define\s+(__FC_[A-Za-z0-9_]+)", sh) if m not in macros]
     return b
 
 
